@@ -716,6 +716,10 @@ class NetworkGraph(AbstractBaseIR):
         else:
             tsize = 0
 
+        # does an operator of the target node itself feed the target variable as well?
+        top_inputs = self[tnode][top]['inputs']
+        intra_node_sources = bool(tvar in top_inputs and top_inputs[tvar]['sources'])
+
         # step 1: collect all inputs
         weights, source_indices, target_indices, sources = [], [], [], []
         edge_irs, edge_var_maps = [], []
@@ -980,7 +984,7 @@ class NetworkGraph(AbstractBaseIR):
 
             # elements of a vectorized target variable that no edge projects to keep their declared default value,
             # exactly as they do when the variable has a single input
-            if tsize > 1 and f'{tvar}_in0' in args and np.size(tval['value']) in (1, tsize):
+            if tsize > 1 and f'{tvar}_in0' in args and np.size(tval['value']) in (1, tsize) and not intra_node_sources:
                 default = np.broadcast_to(np.asarray(tval['value'], dtype=float).flatten(), (tsize,))
                 covered = set()
                 for tidx in target_indices:
@@ -995,6 +999,10 @@ class NetworkGraph(AbstractBaseIR):
         # step 4: define target variable as operator output
         args[tvar] = tval
         args[tvar]['vtype'] = 'variable'
+        if intra_node_sources and tsize > 1 and not multiple_inputs:
+            # The variable is also driven by operators of its own node, so its declared default does not apply to any
+            # of the merged nodes: elements that no edge reaches must contribute nothing to the sum of sources.
+            args[tvar]['value'] = [0.0] * tsize
 
         # step 5: add edge operator to target node
         if tnode not in in_edge_indices:
